@@ -28,7 +28,18 @@ extra6 = (" In this round aim at INTERACTIONS and leftovers: (1) two public feat
           "single-column shapes, index arithmetic near 2**31 for long inputs; (4) the result object rather than its values - dtype, "
           "index, column order or names of returned frames, aliasing between returned arrays and internal state. At least TWO of the "
           "three mutants must be of kinds (1) or (2), and each must still satisfy (a) and (b).")
-extra = extra6 if rnd.startswith("r6") else extra4 if rnd.startswith("r4") else extra3 if rnd.startswith("r3") else "" if not rnd else (" In this round prefer the LESS obvious sites: helper and utility code, validation, base classes, "
+extra7 = (" In this round write changes a maintainer would make for SPEED or COMPATIBILITY and get subtly wrong: (1) performance work - "
+          "a shortcut that skips recomputation when 'nothing changed' (with an incomplete notion of what can change), memoising or "
+          "re-using buffers between calls or between instances (keyed or sized incompletely), lazy evaluation, early termination of a "
+          "search or loop, incremental / online update formulas instead of recomputation, lower-precision or differently ordered "
+          "arithmetic (float32 intermediates, differences of large prefix sums, einsum / matmul re-associations), sorting or "
+          "partitioning tricks that change tie order; (2) API drift - a default changed at one of several sites, a keyword silently "
+          "ignored, swapped or passed positionally in the wrong order to an internal helper, an attribute renamed at the writer but "
+          "read under the old name through a getattr default, a deprecated alias handled for one class only; (3) compatibility shims "
+          "for other NumPy / pandas versions (copy-on-write, np.asarray vs np.array(copy=...), .values vs .to_numpy(), inplace=True, "
+          "Series vs DataFrame return types, integer vs label indexing) that are not quite equivalent. At least TWO of the three "
+          "mutants must be of kinds (1) or (2), each must still satisfy (a) and (b), and none may be a plain comparison-operator slip.")
+extra = extra7 if rnd.startswith("r7") else extra6 if rnd.startswith("r6") else extra4 if rnd.startswith("r4") else extra3 if rnd.startswith("r3") else "" if not rnd else (" In this round prefer the LESS obvious sites: helper and utility code, validation, base classes, "
                             "penalty / threshold construction, conversions, caching and state handling, parameter plumbing between "
                             "classes - rather than the most central line of the main algorithm loop - and make at least TWO of the "
                             "three mutants need a rare input or boundary configuration to manifest.")
